@@ -19,7 +19,7 @@ import json
 import os
 
 from . import common, bvals, bval_spec, trees
-from .common import AnalysisBroken, strip, walk, calls, const_value, enum_name
+from .common import AnalysisBroken, strip, walk, calls, render, const_value, enum_name
 from .c04_builtins import canon
 
 EXPLANATION = (
@@ -33,7 +33,12 @@ EXPLANATION = (
     "call graph: a builtin is impure if its runtime entry (transitively) calls an I/O or process-control primitive or "
     "writes through a pointer parameter (directly, via a known writer such as sprintf/strcpy/memcpy, or via a callee that "
     "does); impure => hasSideFx == 1. Q3: tags for which foamHasSideEffect can return true without looking at operands and "
-    "tags classified by foamIsControlFlow must include the frozen reference sets. Not decided: that any pass preserves "
+    "tags classified by foamIsControlFlow must include the frozen reference sets. Q4 (guard coverage by three-valued partial "
+    "evaluation): every arm of peepMakeUnaryOp's switch that does not mention the operand (the constant results OpZero/OpOne/"
+    "OpMOne/OpTrue/OpFalse) must be preceded by a `return NULL` guard whose condition, with op fixed to that label, "
+    "peepBValOpInfo[] cells read from the table and peepNoSideFx(operand) := false, evaluates to true; in peepBinaryBCall "
+    "every `arg = l|r` selection and in peepNegate the operand swap must sit under a condition that evaluates to false when "
+    "foamHasSideEffect := true, peepNoSideFx := false and peepFoamIsValue := false (an impure operand is not a literal). Not decided: that any pass preserves "
     "meaning on any program.")
 
 FROZEN = os.path.join(os.path.dirname(__file__), "frozen")
@@ -252,6 +257,130 @@ def q1(rep, f_peep, info):
                                       "from %s" % (op, c, v, sorted(valid.get(c, set())) or "none", short))
 
 
+def q4(rep, f_peep):
+    """Operand-dropping rewrites are guarded by purity of the dropped operand."""
+    from .peval import peval
+    fn = f_peep.func("peepMakeUnaryOp")
+    parms = [p["n"] for p in fn.get("params", [])]
+    if len(parms) != 3:
+        raise AnalysisBroken("peepMakeUnaryOp no longer has the parameters (op, type, arg0)")
+    opn, _, argn = parms
+    body = fn["body"]
+    sw = None
+    guards = []
+    for st in body["c"]:
+        if st is None:
+            continue
+        if st["k"] == "SwitchStmt" and strip(st["c"][0]) is not None and strip(st["c"][0]).get("n") == opn:
+            sw = st
+            break
+        if st["k"] == "IfStmt" and st["c"][2] is None:
+            then = st["c"][1]
+            while then is not None and then["k"] == "CompoundStmt" and len(then["c"]) == 1:
+                then = then["c"][0]
+            if then is not None and then["k"] == "ReturnStmt" and then["c"] and const_value(then["c"][0]) == 0:
+                guards.append(st)
+    if sw is None:
+        raise AnalysisBroken("peepMakeUnaryOp: switch on the op parameter not found")
+    rec = f_peep.records.get("_bvalOpInfo")
+    fields = [x[0] for x in rec["f"]]
+    rows = common.table_rows(f_peep.var("peepBValOpInfo"))
+
+    def lookup(n, env):
+        if n["k"] == "CallExpr" and n.get("callee") in ("peepNoSideFx", "foamHasSideEffect"):
+            a = strip(n["c"][1])
+            if a is not None and a.get("n") == argn:
+                return 0 if n["callee"] == "peepNoSideFx" else 1    # the operand is assumed impure
+        if n["k"] == "MemberExpr" and n.get("n") in fields:
+            arr = strip(n["c"][0])
+            if arr is not None and arr["k"] == "ArraySubscriptExpr" and strip(arr["c"][0]).get("n") == "peepBValOpInfo":
+                i = peval(arr["c"][1], env, lookup)
+                if i is not None and 0 <= i < len(rows):
+                    return const_value(rows[i]["c"][fields.index(n["n"])])
+        return None
+
+    groups = common.switch_cases(sw)
+    ndrop = 0
+    for gi, g in enumerate(groups):
+        # statements executed for these labels, including groups fallen into
+        stmts = list(g["stmts"])
+        j = gi
+        while groups[j]["falls"] and j + 1 < len(groups):
+            j += 1
+            stmts += groups[j]["stmts"]
+        uses = any(x["k"] == "DeclRefExpr" and x["n"] == argn for st in stmts for x in walk(st))
+        if uses:
+            continue
+        for lon, lo, hi in g["labels"]:
+            if lon == "default":
+                raise AnalysisBroken("peepMakeUnaryOp: the default arm drops the operand; the rule cannot enumerate the ops it covers")
+            ndrop += 1
+            key = "purity-guard:peepMakeUnaryOp:%s" % lon
+            verdicts = [peval(gd["c"][0], {opn: lo}, lookup) for gd in guards]
+            if any(v is not None and v != 0 for v in verdicts):
+                rep.ok("Q4", key, sample={"op": lon, "rule": "with op=%s and an impure operand a preceding `return NULL` guard is true" % lon}
+                       if ndrop <= 2 else None)
+            else:
+                rep.violation("Q4", key, "of_peep.c:%d (peepMakeUnaryOp case %s)" % (g["line"], lon),
+                              "the arm for %s builds a constant and drops the operand, but no preceding guard returns NULL when the operand "
+                              "has side effects (guards evaluate to %s for op=%s): x*0, x-x, ... lose the effects of x at -Q2 and above"
+                              % (lon, verdicts, lon))
+    rep.floor("operand-dropping arms of peepMakeUnaryOp", ndrop, 5)
+
+    # Q4b/c: under the assumption that every operand is impure (so it is not a literal either), no rewrite that drops or
+    # reorders an operand is enabled
+    def impure(n, env):
+        if n["k"] == "CallExpr":
+            cal = n.get("callee")
+            if cal == "foamHasSideEffect":
+                return 1
+            if cal in ("peepNoSideFx", "peepFoamIsValue", "otIsFoamConst"):
+                return 0
+        return None
+
+    par_of = {}
+    def enclosing_then(fnbody, node):
+        par = par_of.setdefault(id(fnbody), common.parents(fnbody))
+        ch, p = node, par.get(node["id"])
+        while p is not None:
+            if p["k"] == "IfStmt" and p["c"][1] is not None and any(y["id"] == ch["id"] for y in [p["c"][1]]):
+                return p
+            ch, p = p, par.get(p["id"])
+        return None
+
+    fb = f_peep.func("peepBinaryBCall")
+    nsel = 0
+    for x in walk(fb["body"]):
+        if x["k"] == "BinaryOperator" and x["op"] == "=" and strip(x["c"][0]).get("n") == "arg":
+            nsel += 1
+            iff = enclosing_then(fb["body"], x)
+            key = "purity-guard:peepBinaryBCall:arg=%s@%s" % (render(x["c"][1]), render(iff["c"][0])[:60] if iff else "?")
+            v = peval(iff["c"][0], {}, impure) if iff is not None else None
+            if v == 0:
+                rep.ok("Q4", key, sample={"site": "of_peep.c:%d" % x["l"], "rule": "condition is false when both operands are impure"} if nsel <= 1 else None)
+            else:
+                rep.violation("Q4", key, "of_peep.c:%d (peepBinaryBCall)" % x["l"],
+                              "one operand is kept (%s) and the other dropped although the enabling condition `%s` can hold for an "
+                              "operand with side effects" % (render(x["c"][1]), render(iff["c"][0]) if iff else "none"))
+    rep.floor("operand selections in peepBinaryBCall", nsel, 5)
+    fnn = f_peep.func("peepNegate")
+    nswap = 0
+    for c in calls(fnn["body"], "peepMakeBinaryOp"):
+        a, b = render(strip(c["c"][3])), render(strip(c["c"][4]))
+        if "argv[1]" in a and "argv[0]" in b:
+            nswap += 1
+            iff = enclosing_then(fnn["body"], c)
+            v = peval(iff["c"][0], {}, impure) if iff is not None else None
+            key = "purity-guard:peepNegate:swap"
+            if v == 0:
+                rep.ok("Q4", key)
+            else:
+                rep.violation("Q4", key, "of_peep.c:%d (peepNegate)" % c["l"],
+                              "the operands of the negated comparison are exchanged although both may have side effects: their "
+                              "evaluation order changes with the optimisation level")
+    rep.floor("operand swaps in peepNegate", nswap, 1)
+
+
 def q3(rep, f_foam):
     frozen = json.load(open(os.path.join(FROZEN, "c02_classifier_tags.json")))
     for fname, want in frozen.items():
@@ -410,12 +539,13 @@ def q2(rep, info, f_genc):
 def run(tier, only=None):
     rep = common.Report("C02", tier, EXPLANATION)
     f_foam = common.extract("foam.c", trees=["foamHasSideEffect", "foamIsControlFlow"])
-    f_peep = common.extract("of_peep.c")
+    f_peep = common.extract("of_peep.c", trees=["peepMakeUnaryOp", "peepBinaryBCall", "peepNegate"])
     f_genc = common.extract("genc.c")
     info = bvals.info_table(f_foam)
     q1(rep, f_peep, info)
     q2(rep, info, f_genc)
     q3(rep, f_foam)
+    q4(rep, f_peep)
     rep.assumptions += ["allocation and errno are not effects",
                         "the meaning of the table columns is the one fixed by peepBinaryBCall/peepUnaryBCall/peepNegate "
                         "(operands of a binary dual are swapped)",
